@@ -33,7 +33,7 @@ func (ex *Exec) callWith(fr *Frame, st *State, pc *Term, site ssa.Instruction, c
 		pos = cc.Pos()
 	}
 	if b, ok := cc.Value.(*ssa.Builtin); ok && !cc.IsInvoke() {
-		return ex.builtin(fr, st, pc, b, cc, args, pos), pc
+		return ex.builtin(fr, st, pc, b, cc, args, pos, site), pc
 	}
 	if cc.IsInvoke() {
 		return ex.invoke(fr, st, pc, cc, fnv.(VIface), args, pos)
@@ -67,6 +67,8 @@ func (ex *Exec) callFn(fr *Frame, st *State, pc *Term, fn *ssa.Function, args []
 	switch base {
 	case "verif_forall":
 		return ex.specForall(fr, st, pc, args[0]), pc
+	case "verif_forall_range":
+		return ex.specForallRange(fr, st, pc, args[0].(VBV).T, args[1].(VBV).T, args[2]), pc
 	case "verif_exists":
 		return VBool{Not(ex.specForall(fr, st, pc, negClosure{args[0]}).(VBool).T)}, pc
 	}
@@ -268,7 +270,7 @@ func (ex *Exec) evalClauseEnv(fr *Frame, st *State, pc *Term, cl *Clause, env *c
 // evalClause for the function being verified (top frame)
 func (ex *Exec) evalClause(fr *Frame, st *State, pc *Term, cl *Clause, results []Value) *Term {
 	env := &clauseEnv{args: fr.params, results: results, pre: fr.entry}
-	if cl.Kind == "invariant" || cl.Kind == "decreases" {
+	if cl.Kind == "invariant" || cl.Kind == "decreases" || cl.Kind == "assert" {
 		env.cells = func(p ClauseParam) Value { return ex.cellValue(fr, st, cl, p) }
 	}
 	v := ex.evalClauseEnv(fr, st, pc, cl, env)
@@ -445,6 +447,10 @@ func (ex *Exec) modularCall(fr *Frame, st *State, pc *Term, fn *ssa.Function, c 
 	nextPre := st.next
 	if ws["next"] {
 		st.next = Fresh("next", BV64)
+		nextSyms[st.next] = true
+		if b, k, ok := splitAddConst(nextPre); ok && nextSyms[b] {
+			nextGE[st.next] = idBound{b, k}
+		}
 		ex.assume(pc, ULe(nextPre, st.next))
 	}
 	for comp := range ws {
@@ -516,7 +522,7 @@ func (ex *Exec) invoke(fr *Frame, st *State, pc *Term, cc *ssa.CallCommon, recv 
 
 // ---------------------------------------------------------------- builtins
 
-func (ex *Exec) builtin(fr *Frame, st *State, pc *Term, b *ssa.Builtin, cc *ssa.CallCommon, args []Value, pos token.Pos) Value {
+func (ex *Exec) builtin(fr *Frame, st *State, pc *Term, b *ssa.Builtin, cc *ssa.CallCommon, args []Value, pos token.Pos, site ssa.Instruction) Value {
 	switch b.Name() {
 	case "len":
 		switch x := args[0].(type) {
@@ -545,7 +551,7 @@ func (ex *Exec) builtin(fr *Frame, st *State, pc *Term, b *ssa.Builtin, cc *ssa.
 			return VBV{C64(under(cc.Args[0].Type()).(*types.Array).Len())}
 		}
 	case "append":
-		return ex.doAppend(fr, st, pc, cc, args, pos)
+		return ex.doAppend(fr, st, pc, cc, args, pos, site)
 	case "copy":
 		return ex.doCopy(fr, st, pc, cc, args, pos)
 	case "delete":
@@ -581,7 +587,7 @@ func (ex *Exec) builtin(fr *Frame, st *State, pc *Term, b *ssa.Builtin, cc *ssa.
 }
 
 // append(s, elems...) with exact aliasing semantics.
-func (ex *Exec) doAppend(fr *Frame, st *State, pc *Term, cc *ssa.CallCommon, args []Value, pos token.Pos) Value {
+func (ex *Exec) doAppend(fr *Frame, st *State, pc *Term, cc *ssa.CallCommon, args []Value, pos token.Pos, site ssa.Instruction) Value {
 	s := args[0].(VSlice)
 	et := under(cc.Args[0].Type()).(*types.Slice).Elem()
 	var src VSlice
@@ -601,6 +607,9 @@ func (ex *Exec) doAppend(fr *Frame, st *State, pc *Term, cc *ssa.CallCommon, arg
 	}
 	n := src.Len
 	newLen := Add(s.Len, n)
+	if site != nil && ex.linearAppend(fr, site) {
+		return ex.doLinearAppend(st, pc, et, s, src, srcRowFn, n, newLen)
+	}
 	fits := SLe(newLen, s.Cap)
 	// fresh array for the growing case
 	p := ex.alloc(st, pc)
@@ -622,30 +631,20 @@ func (ex *Exec) doAppend(fr *Frame, st *State, pc *Term, cc *ssa.CallCommon, arg
 			for k := uint64(0); k < n.Val; k++ {
 				inRow = Store(inRow, Add(Add(s.Off, s.Len), C64(int64(k))), Select(srcRow, Add(src.Off, C64(int64(k)))))
 			}
-			fresh := Fresh("approw", rowS)
-			j := Bound("j", BV64)
-			ex.assume(pc, Forall([]*Term{j}, Implies(And(SLe(C64(0), j), SLt(j, s.Len)),
-				Eq(Select(fresh, j), Select(Select(c, s.Arr), Add(s.Off, j)))), []*Term{Select(fresh, j)}))
+			fresh := RowCopy(ConstArr(rowS, zeroLeaf(srt)), C64(0), Select(c, s.Arr), s.Off, s.Len)
 			for k := uint64(0); k < n.Val; k++ {
 				fresh = Store(fresh, Add(s.Len, C64(int64(k))), Select(srcRow, Add(src.Off, C64(int64(k)))))
 			}
 			ex.noteWrite(name)
 			st.setComp(name, Ite(fits, Store(c, s.Arr, inRow), Store(c, p, fresh)))
 		} else {
-			res := Fresh("approw", rowS)
-			j := Bound("j", BV64)
 			oldRow := Select(c, s.Arr)
-			// prefix preserved
-			ex.assume(pc, Forall([]*Term{j}, Implies(And(SLe(C64(0), j), SLt(j, s.Len)),
-				Eq(Select(res, Add(resOff, j)), Select(oldRow, Add(s.Off, j)))), []*Term{Select(res, Add(resOff, j))}))
-			// appended elements
-			ex.assume(pc, Forall([]*Term{j}, Implies(And(SLe(C64(0), j), SLt(j, n)),
-				Eq(Select(res, Add(Add(resOff, s.Len), j)), Select(srcRow, Add(src.Off, j)))), []*Term{Select(res, Add(Add(resOff, s.Len), j))}))
-			// in-place: everything outside the appended window unchanged
-			ex.assume(pc, Implies(fits, Forall([]*Term{j}, Implies(Or(SLt(j, Add(s.Off, s.Len)), SLe(Add(s.Off, newLen), j)),
-				Eq(Select(res, j), Select(oldRow, j))), []*Term{Select(res, j)})))
+			// in-place: the appended window of the old array is overwritten
+			inRow := RowCopy(oldRow, Add(s.Off, s.Len), srcRow, src.Off, n)
+			// growing: a fresh array holding the old prefix followed by the appended elements
+			grow := RowCopy(RowCopy(ConstArr(rowS, zeroLeaf(srt)), C64(0), oldRow, s.Off, s.Len), s.Len, srcRow, src.Off, n)
 			ex.noteWrite(name)
-			st.setComp(name, Store(c, resArr, res))
+			st.setComp(name, Ite(fits, Store(c, s.Arr, inRow), Store(c, p, grow)))
 		}
 	}
 	return VSlice{resArr, resOff, newLen, resCap}
@@ -675,14 +674,167 @@ func (ex *Exec) doCopy(fr *Frame, st *State, pc *Term, cc *ssa.CallCommon, args 
 		c := st.comp(name, ArrSort(BV64, rowS))
 		srcRow := srcRowFn(i, srt)
 		oldRow := Select(c, d.Arr)
-		res := Fresh("copyrow", rowS)
-		j := Bound("j", BV64)
-		ex.assume(pc, Forall([]*Term{j}, Implies(And(SLe(C64(0), j), SLt(j, n)),
-			Eq(Select(res, Add(d.Off, j)), Select(srcRow, Add(srcOff, j)))), []*Term{Select(res, Add(d.Off, j))}))
-		ex.assume(pc, Forall([]*Term{j}, Implies(Or(SLt(j, d.Off), SLe(Add(d.Off, n), j)),
-			Eq(Select(res, j), Select(oldRow, j))), []*Term{Select(res, j)}))
+		res := RowCopy(oldRow, d.Off, srcRow, srcOff, n)
 		ex.noteWrite(name)
 		st.setComp(name, Store(c, d.Arr, res))
 	}
 	return VBV{n}
+}
+
+// specForallRange: forall k in lo..hi (hi exclusive); constant ranges are expanded into ground instances
+func (ex *Exec) specForallRange(fr *Frame, st *State, pc *Term, lo, hi *Term, f Value) Value {
+	cl, ok := f.(VFunc)
+	if !ok {
+		panic(unsupported("verif_forall_range needs a function literal"))
+	}
+	sf := &Frame{fn: fr.fn, vals: fr.vals, depth: fr.depth, spec: true}
+	if lo.IsConst() && hi.IsConst() && sx(hi.Val, 64)-sx(lo.Val, 64) <= 512 {
+		var cs []*Term
+		for k := sx(lo.Val, 64); k < sx(hi.Val, 64); k++ {
+			kv := convInt(C64(k), types.Typ[types.Int64], cl.Fn.Params[0].Type())
+			cs = append(cs, ex.inline(sf, st, pc, cl.Fn, []Value{VBV{kv}}, cl.Binds, true, token.NoPos).(VBool).T)
+		}
+		return VBool{And(cs...)}
+	}
+	p := cl.Fn.Params[0]
+	b := Bound(p.Name(), leafSorts(p.Type())[0])
+	body := ex.inline(sf, st, pc, cl.Fn, []Value{VBV{b}}, cl.Binds, true, token.NoPos).(VBool).T
+	b64 := b
+	if b.Sort.W < 64 {
+		b64 = SExt(b, 64)
+	}
+	return VBool{Forall([]*Term{b}, Implies(And(SLe(lo, b64), SLt(b64, hi)), body))}
+}
+
+// ---- linear slices ---------------------------------------------------------------
+// A slice variable declared `linear` is only ever used as  s = append(s, ...), s[i], len(s),
+// cap(s) and return s  (checked on the SSA). The old value is dead after each append, so whether
+// append worked in place or reallocated is unobservable inside the function. The model: the first
+// append copies into a private array (and havocs the spare window [len,cap) of the old array,
+// which an in-place append would have overwritten); later appends extend the private array.
+
+var privateArrs = map[*Term]bool{}
+
+func (ex *Exec) linearAppend(fr *Frame, site ssa.Instruction) bool {
+	c := ex.contractOfFrame(fr)
+	if c == nil || len(c.Linear) == 0 {
+		return false
+	}
+	call, ok := site.(*ssa.Call)
+	if !ok {
+		return false
+	}
+	ld, ok := call.Call.Args[0].(*ssa.UnOp)
+	if !ok {
+		return false
+	}
+	a, ok := ld.X.(*ssa.Alloc)
+	if !ok {
+		return false
+	}
+	for _, n := range c.Linear {
+		if a.Comment == n {
+			if err := checkLinear(a); err != "" {
+				panic(unsupported("variable " + n + " is declared linear but " + err))
+			}
+			return true
+		}
+	}
+	return false
+}
+
+var linearChecked = map[*ssa.Alloc]string{}
+
+func checkLinear(a *ssa.Alloc) string {
+	if r, ok := linearChecked[a]; ok {
+		return r
+	}
+	res := ""
+	if a.Heap {
+		res = "its address escapes"
+	}
+	for _, r := range *a.Referrers() {
+		switch x := r.(type) {
+		case *ssa.DebugRef:
+		case *ssa.Store:
+			if x.Addr != ssa.Value(a) {
+				res = "it is stored somewhere"
+			}
+		case *ssa.UnOp: // load
+			for _, u := range *x.Referrers() {
+				switch y := u.(type) {
+				case *ssa.DebugRef, *ssa.Return, *ssa.IndexAddr:
+				case *ssa.Store:
+					// copying into the anonymous result cell just before returning
+					ra, ok := y.Addr.(*ssa.Alloc)
+					if !ok || ra.Comment != "" || ra.Heap {
+						res = "it is copied to another variable"
+					}
+				case *ssa.Call:
+					b, ok := y.Call.Value.(*ssa.Builtin)
+					if !ok {
+						res = "it is passed to a call"
+						break
+					}
+					switch b.Name() {
+					case "len", "cap":
+					case "append":
+						if y.Call.Args[0] != ssa.Value(x) {
+							res = "it is appended to another slice"
+						}
+						for _, w := range *y.Referrers() {
+							switch z := w.(type) {
+							case *ssa.DebugRef:
+							case *ssa.Store:
+								if z.Addr != ssa.Value(a) {
+									res = "an append result is stored elsewhere"
+								}
+							default:
+								res = "an append result is used other than by assignment to itself"
+							}
+						}
+					default:
+						res = "it is passed to builtin " + b.Name()
+					}
+				default:
+					res = fmt.Sprintf("it is used by %T", u)
+				}
+			}
+		default:
+			res = fmt.Sprintf("it is used by %T", r)
+		}
+	}
+	linearChecked[a] = res
+	return res
+}
+
+func (ex *Exec) doLinearAppend(st *State, pc *Term, et types.Type, s VSlice, src VSlice, srcRowFn func(int, *Sort) *Term, n, newLen *Term) Value {
+	ex.assume(pc, SLe(newLen, C64(int64(SizeBound))))
+	newCap := Fresh("lincap", BV64)
+	ex.assume(pc, And(SLe(newLen, newCap), SLe(newCap, C64(int64(2*SizeBound)))))
+	if privateArrs[s.Arr] {
+		for i, srt := range leafSorts(et) {
+			name := eCompName(et, i)
+			c := st.comp(name, ArrSort(BV64, ArrSort(BV64, srt)))
+			row := RowCopy(Select(c, s.Arr), Add(s.Off, s.Len), srcRowFn(i, srt), src.Off, n)
+			ex.noteWrite(name)
+			st.setComp(name, Store(c, s.Arr, row))
+		}
+		return VSlice{s.Arr, s.Off, newLen, newCap}
+	}
+	p := ex.alloc(st, pc)
+	privateArrs[p] = true
+	for i, srt := range leafSorts(et) {
+		name := eCompName(et, i)
+		rowS := ArrSort(BV64, srt)
+		c := st.comp(name, ArrSort(BV64, rowS))
+		oldRow := Select(c, s.Arr)
+		srcRow := srcRowFn(i, srt)
+		grow := RowCopy(RowCopy(ConstArr(rowS, zeroLeaf(srt)), C64(0), oldRow, s.Off, s.Len), s.Len, srcRow, src.Off, n)
+		// an in-place append would have written the spare window of the old array
+		spare := RowCopy(oldRow, Add(s.Off, s.Len), Fresh("spare", rowS), C64(0), Sub(s.Cap, s.Len))
+		ex.noteWrite(name)
+		st.setComp(name, Store(Store(c, s.Arr, spare), p, grow))
+	}
+	return VSlice{p, C64(0), newLen, newCap}
 }
